@@ -146,6 +146,7 @@ async fn main() {
         "update_preserves" => update::op_update_preserves(sc).await,
         "delegated_paths" => delegs::op_delegated_paths(sc).await,
         "delegate_role" => delegate::op_delegate_role(sc).await,
+        "add_role" => delegate::op_add_role(sc).await,
         _ => json!({"error": format!("unknown op {op}")}),
     };
     println!("{}", out);
